@@ -23,7 +23,7 @@ import scipy.sparse as sp
 from harness.common import coq_list, dy_lit, frac_dy_lit, zlit, parse_coq_value, eval_outputs
 from harness import c12_lib as L
 
-LEVEL = 'proof'
+LEVEL = 'translation_validation'
 RTOL_EXP = -40            # Coq-side relative tolerance 2^-40 w.r.t. max_i(|u_i| + |rhs_i| + |factor| sum_j |a_ij||u_j|)
 CFG_SLACK = 100.0         # slack on the configured solver tolerance (newton_tol, lintol * ||rhs||_2)
 ULP_SLACK = 1024.0        # slack on the rounding floor (residual change under +-1 ulp perturbations of u)
@@ -310,6 +310,7 @@ def run(ck):
 
     ck.cov['classes_covered'] = {k: v for k, v in sorted(covered.items())}
     ck.cov['classes_covered_count'] = len(covered)
+    ck.cov['programs'] = len(covered)                      # problem classes whose solver outputs were validated this run
     ck.cov['time_python_phase_s'] = round(time.time() - t_start, 1)
 
     # ------------------------------------------------------------------ kernel evaluation
